@@ -1904,3 +1904,82 @@ Proof. reflexivity. Qed.
 Theorem reset_prints_default fmt17 fl level b t :
   serialize fmt17 fl level (reset_serializer_node (JDouble b t)) = double_text fmt17 fl b.
 Proof. reflexivity. Qed.
+
+(* ------------------------------------------------------------------ option formats: global and per thread *)
+Lemma double_fixup_drops_true fl out : double_fixup_drops true fl out = double_fixup fl out.
+Proof.
+  unfold double_fixup_drops, double_fixup, double_fixup_with.
+  destruct (split_at 44 (zfirstn 127 out)) as [[a b]|]; [|destruct (split_at 46 (zfirstn 127 out)) as [[a b]|]];
+    rewrite ?andb_true_r; reflexivity.
+Qed.
+
+Lemma t_lookup_remove_other a b l : a <> b -> t_lookup b (t_remove a l) = t_lookup b l.
+Proof.
+  intros Hab. induction l as [|[k f] r IH]; [reflexivity|]. cbn [t_remove t_lookup].
+  destruct (k =? a) eqn:Ea.
+  - apply Z.eqb_eq in Ea. subst k. replace (a =? b) with false by lia. exact IH.
+  - cbn [t_lookup]. rewrite IH. reflexivity.
+Qed.
+Lemma t_lookup_set_other a b f l : a <> b -> t_lookup b (t_set a f l) = t_lookup b l.
+Proof.
+  intros Hab. destruct f as [f|]; cbn [t_set t_lookup]; [replace (a =? b) with false by lia|]; apply t_lookup_remove_other, Hab.
+Qed.
+
+(* a THREAD setting made by another thread is invisible here, whatever the format and whether or not
+   thread-local storage is compiled in *)
+Theorem effective_other_thread sup st a b f : a <> b ->
+  effective (fst (set_format sup st a f 1)) b = effective st b.
+Proof.
+  intros Hab. unfold set_format, effective. change (1 =? 0) with false. change (1 =? 1) with true. cbv iota zeta.
+  destruct sup; cbn [fst]; [|reflexivity].
+  cbn [t_fmt g_fmt]. rewrite t_lookup_set_other by exact Hab. reflexivity.
+Qed.
+(* a GLOBAL setting made by another thread applies here unless this thread has its own format *)
+Theorem effective_global_elsewhere sup st a b f : a <> b ->
+  effective (fst (set_format sup st a f 0)) b =
+  match t_lookup b (t_fmt st) with Some own => Some own | None => match f with Some f => Some (c_str f) | None => None end end.
+Proof.
+  intros Hab. unfold set_format, effective. change (0 =? 0) with true. cbv iota zeta. cbn [fst t_fmt g_fmt].
+  rewrite t_lookup_remove_other by exact Hab. reflexivity.
+Qed.
+(* an unknown scope value changes nothing *)
+Theorem set_format_bad_scope sup st a f scope : scope <> 0 -> scope <> 1 -> set_format sup st a f scope = (st, -1).
+Proof. intros H0 H1. unfold set_format. replace (scope =? 0) with false by lia. replace (scope =? 1) with false by lia. reflexivity. Qed.
+
+(* what thread [tid] prints depends only on its own format and the global one *)
+Theorem serialize_thread_depends fmt17 fmtd st st' tid fl level v :
+  t_lookup tid (t_fmt st) = t_lookup tid (t_fmt st') -> g_fmt st = g_fmt st' ->
+  serialize_thread fmt17 fmtd st tid fl level v = serialize_thread fmt17 fmtd st' tid fl level v.
+Proof. intros H1 H2. unfold serialize_thread, effective. rewrite H1, H2. reflexivity. Qed.
+
+(* any number of THREAD settings by other threads *)
+Definition others_set (sup : bool) (tid : Z) (calls : list (Z * option (list byte))) (st : fmt_state) : fmt_state :=
+  fold_left (fun s c => fst (set_format sup s (fst c) (snd c) 1)) calls st.
+Lemma others_set_effective sup tid calls : Forall (fun c => fst c <> tid) calls ->
+  forall st, effective (others_set sup tid calls st) tid = effective st tid.
+Proof.
+  unfold others_set. induction 1 as [|c r Hc _ IH]; intros st; cbn [fold_left]; [reflexivity|].
+  rewrite IH. apply effective_other_thread. exact Hc.
+Qed.
+
+(* C02 under the built-in format, whatever OTHER threads set for themselves: the text is the one of
+   [serialize], hence RFC 8259 text denoting the tree (a whole-number double keeps its ".0") *)
+Theorem default_format_other_threads fmt17 fmtd sup tid calls fl level v :
+  Forall (fun c => fst c <> tid) calls ->
+  serialize_thread fmt17 fmtd (others_set sup tid calls fmt_init) tid fl level v = serialize fmt17 fl level v.
+Proof. intros H. unfold serialize_thread. rewrite (others_set_effective sup tid calls H). reflexivity. Qed.
+
+Theorem default_format_valid fmt17 fmtd (Hfmt : fmt17_ok fmt17) sup tid calls fl v :
+  Forall (fun c => fst c <> tid) calls -> color fl = false -> tree_ok v ->
+  exists s, stx_ok s = true /\ render s = serialize_thread fmt17 fmtd (others_set sup tid calls fmt_init) tid fl 0 v /\
+            denotes fmt17 (value s) v.
+Proof. intros H Hc G. rewrite default_format_other_threads by exact H. apply ser_is_valid; assumption. Qed.
+
+(* a format that is the built-in one spelled out behaves as the built-in one *)
+Theorem explicit_g17_format fmt17 fmtd fl bits :
+  fmtd [37;46;49;55;103] bits = fmt17 bits ->
+  opt_double_text fmtd [37;46;49;55;103] fl bits = double_text fmt17 fl bits.
+Proof.
+  intros H. unfold opt_double_text, double_text. rewrite H.
+  change (negb (has_sub [46;48;102] [37;46;49;55;103])) with true. rewrite double_fixup_drops_true. reflexivity.
+Qed.
